@@ -66,9 +66,9 @@ Definition prompt_cond (cfg : chan_cfg) (o : op_opts) : cond :=
 Definition exchange_ok (cfg : chan_cfg) (o : op_opts) (stales : list bytes) (x : exchange) : bool :=
   forallb (fun st =>
              let T := st ++ drop_cr (x_echo x) in
-             match x_cmd x, o_exact o with
-             | [], false => match T with [] => true | _ => false end   (* echo read skipped: nothing may be left to leak into the response phase *)
-             | _, _ => phase_ok cfg (echo_cond o (x_cmd x)) T (length T)
+             match x_cmd x with
+             | [] => match T with [] => true | _ => false end   (* echo read skipped: nothing may be left to leak into the response phase *)
+             | _ => phase_ok cfg (echo_cond o (x_cmd x)) T (length T)
              end) stales
   && (let T := drop_cr (x_resp x) in
       phase_ok cfg (prompt_cond cfg o) T (x_resp_lo x)
